@@ -74,8 +74,10 @@ def words(vendor, tier):
 def slots_for(vendor, tier):
     if vendor == "routeros":
         leaf = [S(["add name=x"]), S(["set a=b c=d"])]
-        sub = [S(["group"], leaf[:1]), S(["ssh-keys2"], leaf[1:])]
-        return [S(["user"], leaf + sub), S(["system"], [S(["logging"], leaf[:1] + [S(["action"], leaf[1:])])]), S(["ip"], [S(["address"], leaf)])]
+        # neighbouring sections may hold EQUAL content (group / ssh-keys2, ip / ipv6)
+        sub = [S(["group"], leaf), S(["ssh-keys2"], leaf)] if tier != "quick" else [S(["group"], leaf[:1]), S(["ssh-keys2"], leaf[:1] + leaf[1:])]
+        return [S(["user"], leaf + sub), S(["system"], [S(["logging"], leaf[:1] + [S(["action"], leaf[1:])])]), S(["ip"], [S(["address"], leaf)]),
+                S(["ipv6"], [S(["address"], leaf)])]
     L1, L2, L3, L4 = words(vendor, tier)
     l4 = [S([w]) for w in L4]
     l3 = [S([L3[0]], l4)] + [S([w]) for w in L3[1:]]
@@ -87,7 +89,7 @@ def slots_for(vendor, tier):
     return out
 
 
-ROS_SECTIONS = {"user", "group", "ssh-keys2", "system", "logging", "action", "ip", "address"}
+ROS_SECTIONS = {"user", "group", "ssh-keys2", "system", "logging", "action", "ip", "ipv6", "address"}
 
 
 def fix_domain(vendor, t):
